@@ -73,6 +73,9 @@ type ReqSpec struct {
 	Body    string `json:"body,omitempty"`
 	// ZeroCL sends an explicit "Content-Length: 0" on a bodiless request.
 	ZeroCL bool `json:"zerocl,omitempty"`
+	// Chunked: the body's length is not declared (chunked transfer coding: ContentLength -1, no
+	// Content-Length header); a body all the same
+	Chunked bool `json:"chunked,omitempty"`
 	// EscSlash: k > 0 sends the k-th slash behind the leading one percent-encoded on the
 	// request line (URL.RawPath is set; URL.Path stays what it is)
 	EscSlash int `json:"esc_slash,omitempty"`
